@@ -105,6 +105,7 @@ class BlockScenario(AstChecksBase):
         g = I.grammar
         cfgspec = ConfigSpec(self.cfgspec.entries, self.cfgspec.prefix, self.cfgspec.verbosity, self.cfgspec.literals, self.cfgspec.comments, self.cfgspec.chain)
         cfg = cfgspec.build(I)
+        I.ctx.notes['cfgspec'] = cfgspec
         H = BlockHarness(I, cfg)
         block = self.make_block(g)
         out = H.visit_block(block)
@@ -272,6 +273,26 @@ def witness(scn, res, ctx, replay, cond=None):
 class AstChecks:
     """mixin: oracles over (input view, output view)"""
 
+    def on_panic(self, I, ctx, err, replay):
+        """a path of repository code ended in a panic: print the input reached so far and replay it natively"""
+        role = 'panic/%s@%s' % (err.kind, err.site.split('/')[-1].split('>::')[-1])
+        cfgspec = ctx.notes.get('cfgspec')
+        try:
+            inp = self.input_tree({'I': I})
+            complete_tree(I.grammar, inp)
+            if not ctx.check():
+                return None
+            pr = Printer(I.P.defs, ctx.solver.model(), ctx)
+            src = self.print_input(pr, inp)
+            cfg = cfgspec.concrete(I, pr)
+            if getattr(self, 'literals_forced', False):
+                cfg['literals'] = True
+            nat = replay().rewrite(src, cfg)
+            w = {'input': src, 'config': cfg, 'native': {k: nat.get(k) for k in ('ok', 'panic', 'err', 'crashed')}, 'agree': bool(nat.get('panic') or nat.get('crashed')), 'predicted_output': 'panic: %s' % err, 'native_output': json.dumps(nat)[:600]}
+        except Exception as e:      # the witness could not be built: report without replay (never silently dropped)
+            w = {'input': '?', 'agree': True, 'note': 'witness construction failed: %r' % (e,)}
+        return {'prop': 'C13', 'role': role, 'detail': str(err), 'witness': w}
+
     def replay_kwargs(self, res, pr):
         return {}
 
@@ -348,7 +369,7 @@ class AstChecks:
         return info
 
 
-for _n in ('replay_kwargs', 'print_input', 'print_output', 'oracles', 'check_path'):
+for _n in ('replay_kwargs', 'print_input', 'print_output', 'oracles', 'check_path', 'on_panic'):
     setattr(AstChecksBase, _n, getattr(AstChecks, _n))
 
 
@@ -411,6 +432,7 @@ class ProgramScenario(AstChecksBase):
         if self.prologue:
             cfg.fields[I.P.defs['Config'].index('file_prefix_code')] = self.prologue_stmts(g)
         cfgspec.prologue_code = PROLOGUE_JS if self.prologue else None
+        I.ctx.notes['cfgspec'] = cfgspec
         H = BlockHarness(I, cfg)
         prog = self.make_program(g)
         out = H.visit_program(prog)
@@ -451,6 +473,8 @@ class ProgramScenario(AstChecksBase):
 
 class LiteralScenario(ProgramScenario):
     """visit_mut_program followed by the real get_literals (LiteralVisitor over the transformed tree)."""
+
+    literals_forced = True
 
     def __init__(self, sp, cfgspec, kinds=('Script',), enabled=(True,)):
         ProgramScenario.__init__(self, sp, cfgspec, kinds, prologue=False)
@@ -741,3 +765,221 @@ class TransformScenario(ProgramScenario):
                     vio('transform/column-mappings-disabled', True, '')
         info['sample'] = {'input': 'status %s' % st, 'output': 'prints=%d' % len(prints), 'status': st, 'hooks': info['hooks']}
         return info
+
+
+# ---------------------------------------------------------------------------------------------
+# chain_source_maps (C10a): token-by-token re-targeting through the original map
+
+class ChainScenario:
+    """chain_source_maps(rewrite_map_json, &Option<original map>, config) with the sourcemap crate as nondeterministic stubs:
+    the rewrite map has 1..N tokens with symbolic (dst_line, dst_col, src_line, src_col); lookup_token on the original map
+    returns None or a token with symbolic position, optional source (universe of 2) and optional name (universe of 2)."""
+
+    def __init__(self, max_tokens=2):
+        self.max_tokens = max_tokens
+
+    def grammar(self, ctx, program):
+        return ChainGrammar(ctx, program, self.max_tokens)
+
+    def run(self, I):
+        ctx = I.ctx
+        g = I.grammar
+        chain = [True, False][ctx.choose([True, True], 'config.chain_source_map')]
+        comments = [False, True][ctx.choose([True, True], 'config.print_comments')]
+        has_orig = [True, False][ctx.choose([True, True], 'original map present')]
+        csi = mk_csi_methods(I, [])
+        cfg = mk_config(I, csi, chain=chain, comments=comments)
+        orig = models.some(models.Opaque('SourceMap', {'id': 'original'})) if has_orig else models.none()
+        r = I.call_path('rewriter::chain_source_maps', [StrV('{"rewrite-map"}'), Ptr(Cell(orig)), Ptr(Cell(cfg))], None)
+        return {'result': r, 'chain': chain, 'has_orig': has_orig, 'I': I}
+
+    def check_path(self, I, ctx, res, replay, do_tv):
+        g = I.grammar
+        info = {'violations': [], 'tv': None, 'sample': None, 'obligations': 0, 'hooks': 1 if g.raw else 0}
+        r = models.deref(res['result'])
+        desc = {'chain': res['chain'], 'original_map': res['has_orig'], 'parse_ok': g.parse_ok, 'tokens': len(g.tokens), 'lookups': [(str(k), 'hit' if v is not None else 'miss') for k, v in g.lookups], 'raw': len(g.raw), 'sources': [str(s) for s in g.sources], 'names': [str(s) for s in g.names]}
+
+        def vio(role, cond, detail):
+            info['obligations'] += 1
+            if cond is False:
+                return
+            if cond is not True and not ctx.check(cond):
+                return
+            w = {'input': json.dumps(desc), 'agree': True, 'note': 'obligation on chain_source_maps with the sourcemap crate stubbed (no native replay possible for stub results)'}
+            if cond is not True:
+                ctx.check(cond)
+                m = ctx.solver.model()
+                w['model'] = {str(d): str(m[d]) for d in m.decls()}
+            info['violations'].append({'prop': 'C10', 'role': role, 'detail': detail, 'witness': w})
+
+        should = res['chain'] and res['has_orig'] and g.parse_ok is True and g.write_ok is not False
+        if r.variant == 1 and not should:
+            vio('chain/map-produced-without-chaining-preconditions', True, json.dumps(desc))
+        if r.variant == 0 and should:
+            vio('chain/no-map-although-chaining-possible', True, json.dumps(desc))
+        if r.variant == 1 and should:
+            # every rewrite token with a hit yields exactly one raw entry, in order
+            hits = [(tok, g.lookup_result(tok)) for tok in g.tokens[:g.consumed]]
+            exp = [(tok, h) for tok, h in hits if h is not None]
+            if len(exp) != len(g.raw):
+                vio('chain/raw-entry-count', True, '%d hits, %d raw entries' % (len(exp), len(g.raw)))
+            else:
+                for i, ((tok, h), raw) in enumerate(zip(exp, g.raw)):
+                    want = [('dst_line', tok['dst_line']), ('dst_col', tok['dst_col']), ('src_line', h['src_line']), ('src_col', h['src_col'])]
+                    for (n, w_), got in zip(want, raw[:4]):
+                        c = O.leaf_eq(w_, got)
+                        if c is not True:
+                            vio('chain/raw-%s-differs' % n, O.neg(c), 'token %d: %s expected %s got %s' % (i, n, w_, got))
+                    # source index
+                    for kind_, hk, lst, gi in (('source', 'source', g.sources, raw[4]), ('name', 'name', g.names, raw[5])):
+                        hv = h[hk]
+                        if hv is None:
+                            if gi is not None:
+                                vio('chain/%s-index-for-token-without-%s' % (kind_, kind_), True, 'token %d carries %s index %s but the original token has no %s' % (i, kind_, gi, kind_))
+                        else:
+                            if gi is None:
+                                vio('chain/%s-dropped' % kind_, True, 'token %d: original token has a %s, none recorded' % (i, kind_))
+                            else:
+                                gi_c = I.concretize_int(gi)
+                                if gi_c >= len(lst):
+                                    vio('chain/%s-index-out-of-range' % kind_, True, '')
+                                else:
+                                    c = O.leaf_eq(lst[gi_c], hv)
+                                    if c is not True:
+                                        vio('chain/%s-index-points-to-other-%s' % (kind_, kind_), O.neg(c), 'token %d: index %d is %s, expected %s' % (i, gi_c, lst[gi_c], hv))
+                    if raw[6] is not False:
+                        vio('chain/is-range-set', True, '')
+            # dedup: equal strings share an index (no two table entries may be equal)
+            for kind_, lst in (('source', g.sources), ('name', g.names)):
+                for a in range(len(lst)):
+                    for b in range(a + 1, len(lst)):
+                        c = O.leaf_eq(lst[a], lst[b])
+                        if c is not False:
+                            vio('chain/%s-table-duplicate' % kind_, c, '%s table has entries %d and %d that can be equal' % (kind_, a, b))
+        info['sample'] = {'input': json.dumps(desc), 'output': 'Some' if r.variant == 1 else 'None', 'status': 'n/a', 'hooks': len(g.raw)}
+        return info
+
+
+class ChainGrammar:
+    def __init__(self, ctx, program, max_tokens):
+        self.ctx = ctx
+        self.P = program
+        self.interp = None
+        self.max_tokens = max_tokens
+        self.tokens = []
+        self.consumed = 0
+        self.lookups = []
+        self.raw = []
+        self.sources = []
+        self.names = []
+        self.parse_ok = None
+        self.write_ok = None
+        self.stubs = {
+            'SourceMap::from_reader': self.stub_from_reader,
+            'SourceMap::tokens': self.stub_tokens,
+            'TokenIter::next': None,
+            'SourceMap::lookup_token': self.stub_lookup,
+            'Token::get_src_line': self.tok_field('src_line'), 'Token::get_src_col': self.tok_field('src_col'),
+            'Token::get_dst_line': self.tok_field('dst_line'), 'Token::get_dst_col': self.tok_field('dst_col'),
+            'Token::has_source': lambda I, info, args: models.deref(args[0]).data['source'] is not None,
+            'Token::has_name': lambda I, info, args: models.deref(args[0]).data['name'] is not None,
+            'Token::get_source': lambda I, info, args: models.none() if models.deref(args[0]).data['source'] is None else models.some(StrV(models.deref(args[0]).data['source'])),
+            'Token::get_name': lambda I, info, args: models.none() if models.deref(args[0]).data['name'] is None else models.some(StrV(models.deref(args[0]).data['name'])),
+            'SourceMapBuilder::new': lambda I, info, args: models.Opaque('SourceMapBuilder', {'g': id(self)}),
+            'SourceMapBuilder::add_source': self.stub_add('sources'),
+            'SourceMapBuilder::add_name': self.stub_add('names'),
+            'SourceMapBuilder::add_raw': self.stub_add_raw,
+            'SourceMapBuilder::into_sourcemap': lambda I, info, args: models.Opaque('SourceMap', {'id': 'chained'}),
+            'SourceMap::to_writer': self.stub_to_writer,
+            'String::from_utf8': lambda I, info, args: models.ok(StrV('{"chained-map"}')),
+        }
+        del self.stubs['TokenIter::next']
+
+    def force(self, I, v):
+        raise Unsupported('no lazy values in this scenario')
+
+    def bv(self, name):
+        return self.ctx.var(name, z3.BitVecSort(32))
+
+    def stub_from_reader(self, I, info, args):
+        ok = self.ctx.choose([True, True], 'SourceMap::from_reader') == 0
+        self.parse_ok = ok
+        if not ok:
+            return models.err(models.Opaque('sourcemap::Error'))
+        n = 1 + (self.ctx.choose([True] * self.max_tokens, 'number of rewrite-map tokens') if self.max_tokens > 1 else 0)
+        self.tokens = [{'dst_line': self.bv('t%d.dst_line' % i), 'dst_col': self.bv('t%d.dst_col' % i), 'src_line': self.bv('t%d.src_line' % i), 'src_col': self.bv('t%d.src_col' % i)} for i in range(n)]
+        return models.ok(models.Opaque('SourceMap', {'id': 'rewrite'}))
+
+    def stub_tokens(self, I, info, args):
+        toks = [models.Opaque('Token', dict(t, source=None, name=None, idx=i)) for i, t in enumerate(self.tokens)]
+
+        def gen():
+            for t in toks:
+                self.consumed += 1
+                yield t
+        return models.IterV(gen())
+
+    def tok_field(self, f):
+        def fn(I, info, args):
+            return models.deref(args[0]).data[f]
+        return fn
+
+    def lookup_result(self, tok):
+        for k, v in self.lookups:
+            if k == (str(tok['src_line']), str(tok['src_col'])):
+                return v
+        return None
+
+    def stub_lookup(self, I, info, args):
+        line, col = args[1], args[2]
+        key = (str(line), str(col))
+        for k, v in self.lookups:
+            if k == key:
+                return models.none() if v is None else models.some(models.Opaque('Token', v))
+        i = len(self.lookups)
+        hit = self.ctx.choose([True, True], 'lookup_token #%d' % i) == 0
+        if not hit:
+            self.lookups.append((key, None))
+            return models.none()
+        tok = {'src_line': self.bv('o%d.src_line' % i), 'src_col': self.bv('o%d.src_col' % i), 'dst_line': self.bv('o%d.dst_line' % i), 'dst_col': self.bv('o%d.dst_col' % i), 'source': None, 'name': None}
+        if self.ctx.choose([True, True], 'original token #%d has source' % i) == 0:
+            s = self.ctx.var('o%d.source' % i, z3.StringSort())
+            if s.get_id() not in self.ctx.dom:
+                self.ctx.set_domain(s, ['a.ts', 'b.ts'])
+                self.ctx.add(z3.Or(s == z3.StringVal('a.ts'), s == z3.StringVal('b.ts')), dom=False)
+            tok['source'] = s
+        if self.ctx.choose([True, True], 'original token #%d has name' % i) == 0:
+            s = self.ctx.var('o%d.name' % i, z3.StringSort())
+            if s.get_id() not in self.ctx.dom:
+                self.ctx.set_domain(s, ['f', 'g'])
+                self.ctx.add(z3.Or(s == z3.StringVal('f'), s == z3.StringVal('g')), dom=False)
+            tok['name'] = s
+        self.lookups.append((key, tok))
+        return models.some(models.Opaque('Token', tok))
+
+    def stub_add(self, which):
+        def fn(I, info, args):
+            lst = getattr(self, which)
+            s = models.as_str(I, args[1])
+            # sourcemap::SourceMapBuilder::add_source / add_name return the id of an existing equal entry
+            for i, x in enumerate(lst):
+                if models.to_bool(I, models.sym_eq(I, StrV(x), s), 'builder.%s dedup' % which):
+                    return i
+            lst.append(s.s)
+            return len(lst) - 1
+        return fn
+
+    def stub_add_raw(self, I, info, args):
+        def optv(o):
+            o = models.opt_force(I, o)
+            return None if o.variant == 0 else o.fields[0]
+        self.raw.append((args[1], args[2], args[3], args[4], optv(args[5]), optv(args[6]), args[7]))
+        return models.Opaque('RawToken')
+
+    def stub_to_writer(self, I, info, args):
+        ok = self.ctx.choose([True, True], 'SourceMap::to_writer') == 0
+        self.write_ok = ok
+        return models.ok(V_UNIT) if ok else models.err(models.Opaque('sourcemap::Error'))
+
+
+from values import UNIT as V_UNIT
